@@ -30,7 +30,7 @@ type aval interface{}
 type (
 	abool  bool
 	aint   int64
-	afloat float64 // a concrete floating-point number (q-values, mostly)
+	afloat float64  // a concrete floating-point number (q-values, mostly)
 	apanic struct{} // what an oracle returns to raise a panic at its call
 	astr   string
 	asym   struct{ name string } // opaque ordered quantity
